@@ -214,8 +214,8 @@ def explore(chk):
         chk.case(key=json.dumps(case, sort_keys=True), nontrivial=True, sample=case if chk.count_get("dfxp") == 3 else None); chk.count("dfxp")
         chk.count("dfxp_langs_%d" % len(langs_desc))
         try:
-            doc = pycaption.DFXPWriter(**opts).write(cs)
-            back = pycaption.DFXPReader().read(doc)
+            doc = core.POOL.get(pycaption.DFXPWriter, **opts).write(cs)
+            back = core.POOL.get(pycaption.DFXPReader).read(doc)
         except Exception as e:
             chk.property_failure(dict(case, error=repr(e)[:300]), "dfxp write/read raised on percentage layouts"); continue
         from pycaption.base import BaseWriter
